@@ -8,7 +8,8 @@ EXPL = ("R09.1 call-graph reachability: from the append entry points (Background
         "blocking_*, RwLock::write); R09.2 the appended entry is linearly moved into the displace-oldest insertion (returns the "
         "displaced element as Option) and never dropped; R09.3 the overflow counter call has constant amount 1, is dominated by the "
         "'an entry was displaced' branch, lies outside any loop and its only other guard is the presence of a recorder. "
-        "Not decided: which entry is displaced and order after wrap-around (ArrayQueue semantics).")
+        "R09.4 the counter is reported under the queue's own name, and the recorder bridges reach no thread-local, once-initialised or static "
+        "state (a loss is attributed using this call's arguments only). Not decided: which entry is displaced and order after wrap-around (ArrayQueue semantics).")
 
 BLOCKING = [
     ("std::sync", ("Mutex::lock", "Condvar::wait", "Condvar::wait_timeout", "Condvar::wait_while", "RwLock::write", "Barrier::wait",
@@ -113,6 +114,54 @@ def run(ctx):
                 ctx.check(not guards, "R09.3", fnkey(ib) + "#overflow-no-extra-guard", loc(ib, inc.bb),
                           "overflow increment has additional guard(s) at bb%s: some displaced entries would not be counted" % guards)
     ctx.floor("R09.2", "ring insertions on the append chain", n_ins, 1)
+    # ------------------------------------------------------------------ R09.4 the loss is counted for this queue: own name in, nothing remembered in the bridge
+    n_name = 0
+    for b in F.all_bodies(BG):
+        if not b.path.startswith(BGMOD):
+            continue
+        pr = None
+        for c in b.calls():
+            if c.name == "increment_counter" and any((op_const(a) or {}).get("str") == "metrique_queue_overflows" for a in c.args):
+                pr = pr or Prov(b)
+                n_name += 1
+                so = pr.operand(c.args[2]) if len(c.args) > 2 else set()
+                ctx.check(any(x[0] == "arg" and x[1] == 1 and x[2] for x in so) and not any(x[0] == "const" for x in so), "R09.4", fnkey(b) + "#counted-under-own-name", loc(b, c.bb),
+                          "the overflow counter is not reported under this queue's own name (origins %s)" % sorted(map(str, so))[:3],
+                          "sink label derives from the queue's own state")
+    ctx.floor("R09.4", "overflow counter call sites", n_name, 1)
+    bridges = [b for b in F.all_bodies(BG) if b.impl and (b.impl.get("trait") or "").endswith("sink::metrics::MetricRecorder")]
+    ctx.floor("R09.4", "MetricRecorder bridge methods", len(bridges), 4)
+    seen, work = {}, [(b, 0) for b in bridges]
+    while work:
+        b, d = work.pop()
+        if b.def_ in seen:
+            continue
+        seen[b.def_] = b
+        if d >= 3:
+            continue
+        for c in b.calls():
+            for sb in local_callee_bodies(F, c) + closure_args(F, c):
+                if sb.crate == BG:
+                    work.append((sb, d + 1))
+    amb = []
+    for b in seen.values():
+        for c in b.calls():
+            d_ = (c.resolved or c.def_ or "")
+            if c.is_in("std::thread", "LocalKey::with", "LocalKey::try_with", "LocalKey::with_borrow", "LocalKey::with_borrow_mut", "LocalKey::set", "LocalKey::get") or \
+                    "OnceLock" in d_ or "LazyLock" in d_ or "OnceCell" in d_ or "lazy::Lazy" in d_:
+                amb.append((b, c))
+    ctx.check(not amb, "R09.4", BG + "::sink::metrics#bridge-keeps-nothing-between-calls",
+              loc(amb[0][0], amb[0][1].bb) if amb else "metrique-writer/src/sink/metrics.rs",
+              "a recorder bridge reaches ambient per-thread / global state (%s in %s): what it reports for one queue can depend on an earlier call "
+              "for another queue (for example a cached key carrying the other queue's name), so a queue's overflow counter no longer equals its own losses"
+              % (amb[0][1].name if amb else "", amb[0][0].path if amb else ""),
+              "%d bodies reachable from the bridge methods, none touches thread-local or once-initialised state" % len(seen))
+    # immutable data statics (the metrics macros' `static METADATA`) are fine; memory is anything thread-local or with interior mutability
+    st_bad = [st for st in F.statics if st["crate"] == BG and "::sink::metrics::" in st["def"] and
+              (st.get("thread_local") or st.get("mutable") or "__RUST_STD_INTERNAL" in st["def"] or
+               any(k in st["ty"] for k in ("Cell", "Mutex", "RwLock", "Atomic", "OnceLock", "LazyLock", "LocalKey", "HashMap")))]
+    ctx.check(not st_bad, "R09.4", BG + "::sink::metrics#no-statics", "metrique-writer/src/sink/metrics.rs",
+              "the recorder bridge module defines static state (%s)" % [x["def"] for x in st_bad][:3])
     return EXPL
 
 
